@@ -149,8 +149,8 @@ def oracle(case):
             p = values.pp(value, width=w)
             if p.exc is not None:
                 return core.viol('pformat-raised', repr(p.exc))
-            if p.warnings:
-                return core.viol('warning', p.warnings[0][:400])
+            if p.fallback_warnings():
+                return core.viol('printer-failed', p.fallback_warnings()[0][:400])
             texts.append(p.text)
     except RecursionError:
         return core.viol('recursion-error', 'printing a graph of %d nodes exhausted the interpreter stack' % len(objs))
